@@ -72,7 +72,7 @@ theorem unwrapCore_eq (o : Oracles) (fn : UnwrapFn) (d : Nat) (pts : List Pt) :
 
 /-! ### `UnwrapFunctionPlanner`'s select -/
 def uwCols (fn : UnwrapFn) (d : Nat) : List Expr :=
-  [bucketCol "timestamp_ns" d, .raw "fingerprint", emptyStr, .col (unwrapValue fn (secLit d)) "value",
+  [bucketCol "timestamp_ns" d, .raw "fingerprint", emptyStr, .col (unwrapValue fn (.int d)) "value",
    .col (.call "any" [.raw "labels"]) "labels"]
 
 def uwBody (fn : UnwrapFn) (d : Nat) (hv : Option Expr) : Sel :=
@@ -84,7 +84,7 @@ theorem uw_aliasVals (o : Oracles) (env : Env) (fn : UnwrapFn) (d : Nat) (hd : 0
       [("timestamp_ns", bucketVal d (r.get "timestamp_ns")), ("string", .str [])] := by
   have hd0 : d ≠ 0 := by omega
   have e2 := get_unqualified "unwrap_1" "timestamp_ns" r (by simp [Std5])
-  have hag : hasAgg (unwrapValue fn (secLit d)) = true := by cases fn <;> rfl
+  have hag : hasAgg (unwrapValue fn (.int d)) = true := by cases fn <;> rfl
   have hb : evalE o env (qualify "unwrap_1" r) (.mulOp (.call "intDiv" [.raw "timestamp_ns", .int d]) (.int d)) =
       bucketVal d (r.get "timestamp_ns") := by
     cases hv : r.get "timestamp_ns" <;>
@@ -96,8 +96,8 @@ theorem uw_aliasVals (o : Oracles) (env : Env) (fn : UnwrapFn) (d : Nat) (hd : 0
 theorem uw_value_num (o : Oracles) (env : Env) (rows : List Row) (first : Row) (grp : List (Int × Rat)) (fn : UnwrapFn)
     (d : Nat) (h : rows.map (fun r => (numOf? (r.get "unwrap_1.value"), r.get "unwrap_1.timestamp_ns")) =
       grp.map (fun p => (some p.2, Val.int p.1))) (hne : grp ≠ [])
-    (hms : 1000000 ∣ d) (hd : 0 < d) :
-    numOf? (evalAgg o env rows first (.col (unwrapValue fn (secLit d)) "value")) = some (unwrapValD o fn d grp) := by
+    (hd : 0 < d) :
+    numOf? (evalAgg o env rows first (.col (unwrapValue fn (.int d)) "value")) = some (unwrapValD o fn d grp) := by
   have hr : ratsOf (rows.map (fun r => r.get "unwrap_1.value")) = some (grp.map (·.2)) := by
     apply ratsOf_of_numOf
     have := congrArg (List.map Prod.fst) h
@@ -106,8 +106,6 @@ theorem uw_value_num (o : Oracles) (env : Env) (rows : List Row) (first : Row) (
     (by simpa [List.map_map, Function.comp_def] using h)
   have hlast := argMax_rel (rows.map (fun r => (r.get "unwrap_1.value", r.get "unwrap_1.timestamp_ns"))) grp
     (by simpa [List.map_map, Function.comp_def] using h)
-  have hsec := secOfMs_eq_secondsOf d hms
-  have hsne := secondsOf_ne_zero d hd
   obtain ⟨p, ps, rfl⟩ : ∃ p ps, grp = p :: ps := by
     cases grp with
     | nil => exact absurd rfl hne
@@ -119,9 +117,15 @@ theorem uw_value_num (o : Oracles) (env : Env) (rows : List Row) (first : Row) (
   case lastOT =>
     simp only [unwrapValue, evalAgg, aggCall, evalE_raw]
     rw [hlast]; rfl
+  case rate =>
+    have hx : evalAgg o env rows first (.call "sum" [.raw "unwrap_1.value"]) = .rat (ratSumL ((p :: ps).map (·.2))) := by
+      simp [evalAgg, aggCall, hr, sumAgg, ratSum, ratSumL]
+    simp only [unwrapValue, evalAgg]
+    rw [evalAgg_perSecond o env rows first _ _ d hd hx]
+    simp [unwrapVal, unwrapValD, numOf?]
   all_goals
     simp [unwrapValue, unwrapVal, unwrapValD, evalAgg, aggCall, hr, sumAgg, avgAgg, minAgg, maxAgg, numOf?, ratSum,
-      varPopAgg, stddevPopAgg, ratSumL, evalAgg_secLit, hsec, hsne, divVal, Val.toRat?]
+      varPopAgg, stddevPopAgg, ratSumL, divVal, Val.toRat?]
 
 theorem uw_cell_ts (o : Oracles) (env : Env) (fn : UnwrapFn) (d : Nat) (hd : 0 < d) (r0 : Row) (rest : List Row) :
     growCell o env (uwCols fn d) (qualify "unwrap_1" r0 :: rest) (bucketCol "timestamp_ns" d) =
@@ -150,7 +154,7 @@ theorem uw_cell_lab (o : Oracles) (env : Env) (fn : UnwrapFn) (d : Nat) (hd : 0 
   simp [get_cons, e3]
 
 theorem uw_group_row (o : Oracles) (env : Env) (fn : UnwrapFn) (d : Nat)
-    (hms : 1000000 ∣ d) (hd : 0 < d)
+    (hd : 0 < d)
     (A : List Row) (hstd : ∀ r ∈ A, StdRow r) (B : List Pt) (hne : A ≠ []) (hAB : A.map rview = B.map Pt.view) :
     rview (grow o env (uwCols fn d) (A.map (qualify "unwrap_1"))) =
       Pt.view ⟨(B.head?.map (·.key)).getD .null, (B.head?.map (·.labels)).getD .null,
@@ -177,18 +181,18 @@ theorem uw_group_row (o : Oracles) (env : Env) (fn : UnwrapFn) (d : Nat)
       have e1 := get_q "unwrap_1" "value" "unwrap_1.value" rfl r (hstd r hr)
       have e2 := get_q "unwrap_1" "timestamp_ns" "unwrap_1.timestamp_ns" rfl r (hstd r hr)
       simp only [rview, Pt.view, Prod.mk.injEq] at hv
-      simp [get_cons, e1, e2, hv.2.1, hv.2.2.1]) (by simp) hms hd
+      simp [get_cons, e1, e2, hv.2.1, hv.2.2.1]) (by simp) hd
   rw [grow_eq]
   have hcols : uwCols fn d = [bucketCol "timestamp_ns" d, .raw "fingerprint", emptyStr,
-      .col (unwrapValue fn (secLit d)) "value", .col (.call "any" [.raw "labels"]) "labels"] := rfl
+      .col (unwrapValue fn (.int d)) "value", .col (.call "any" [.raw "labels"]) "labels"] := rfl
   conv => lhs; arg 1; arg 2; rw [hcols]
   simp only [List.map_cons, List.map_nil]
   rw [uw_cell_ts o env fn d hd r0, uw_cell_fp o env fn d hd r0, step_cell_str, uw_cell_lab o env fn d hd r0]
   have c4 : growCell o env (uwCols fn d) (qualify "unwrap_1" r0 :: List.map (qualify "unwrap_1") A')
-      (.col (unwrapValue fn (secLit d)) "value") =
+      (.col (unwrapValue fn (.int d)) "value") =
       ("value", evalAgg o env (((r0 :: A').map (qualify "unwrap_1")).map (fun r => aliasVals o env (uwCols fn d) r ++ r))
         (scope o env (uwCols fn d) "value" (((r0 :: A').map (qualify "unwrap_1")).headD []))
-        (.col (unwrapValue fn (secLit d)) "value")) := rfl
+        (.col (unwrapValue fn (.int d)) "value")) := rfl
   rw [c4]
   simp only [List.map_cons, List.map_map, List.headD_cons] at hval
   simp only [rview, get_cons, Pt.view, List.head?_cons, Option.map_some, Option.getD_some]
@@ -198,7 +202,7 @@ theorem uw_group_row (o : Oracles) (env : Env) (fn : UnwrapFn) (d : Nat)
     (series, range bucket) in order of first occurrence, carrying the range function of the direct reading over the
     group's (timestamp, value) pairs and the labels of its first member; then the optional HAVING. -/
 theorem uw_eval (o : Oracles) (db : Db) (env : Env) (fn : UnwrapFn) (d : Nat)
-    (hms : 1000000 ∣ d) (hd : 0 < d) (T : Table) (pts : List Pt) (h : Rep T pts)
+    (hd : 0 < d) (T : Table) (pts : List Pt) (h : Rep T pts)
     (hT : env.lookup (.named "unwrap_1") = some T) (cm : Option Comparison) :
     Rep (evalBodyA o db env (uwBody fn d (cmpHaving cm))) (cmpStage cm (unwrapCore o fn d pts)) := by
   unfold uwBody
@@ -222,7 +226,7 @@ theorem uw_eval (o : Oracles) (db : Db) (env : Env) (fn : UnwrapFn) (d : Nat)
       (fun A => rview (grow o env (uwCols fn d) (A.map (qualify "unwrap_1"))))
       (fun B => Pt.view ⟨(B.head?.map (·.key)).getD .null, (B.head?.map (·.labels)).getD .null,
         (B.head?.map (fun p => bucketOf d p.ts)).getD 0, unwrapValD o fn d (B.map (fun p => (p.ts, p.value)))⟩)
-      (fun A B hne hA _ _ hAB => uw_group_row o env fn d hms hd A (fun r hr => h.std r (hA r hr)) B hne hAB)
+      (fun A B hne hA _ _ hAB => uw_group_row o env fn d hd A (fun r hr => h.std r (hA r hr)) B hne hAB)
     rw [List.map_map]
     simp only [Function.comp_def] at this ⊢
     rw [this, unwrapCore_eq o fn]
@@ -615,7 +619,7 @@ theorem rangeState_unwrap (c : MCtx) (q : MetricQuery) (fn : UnwrapFn) (label : 
     reading's range stage over the matching entries taken in timestamp order. -/
 theorem uwPhase_ok (o : Oracles) (c : MCtx) (hn : c.namesOk) (d : LokiDb) (q : MetricQuery) (fn : UnwrapFn) (label : String)
     (hk : q.rangeAgg.kind = .unwrap fn label)
-    (hm : q.rangeAgg.sel.matchers.length ≤ 63) (hms : 1000000 ∣ q.rangeAgg.durNs) (hd : 0 < q.rangeAgg.durNs) :
+    (hm : q.rangeAgg.sel.matchers.length ≤ 63) (hd : 0 < q.rangeAgg.durNs) :
     PStage o c d q.rangeAgg.sel (rangeState false c q).sel
       (cmpStage q.rangeAgg.cmp (unwrapCore o fn q.rangeAgg.durNs (uwInput o c.toCtx d q.rangeAgg label))) (uwAls q.rangeAgg) := by
   rw [rangeState_unwrap c q fn label hk, splSel_unwrap c q fn label hk]
@@ -651,7 +655,7 @@ theorem uwPhase_ok (o : Oracles) (c : MCtx) (hn : c.namesOk) (d : LokiDb) (q : M
     simp only [planByWithout]
     rw [unwrapFnSel_eq]
     have := h0.wrap "unwrap_1" (by decide) (by decide) (uwBody fn q.rangeAgg.durNs (cmpHaving q.rangeAgg.cmp))
-      (cmpHaving_notBitSet _) _ (uw_eval o _ _ fn _ hms hd _ _ h0.rep (by simp [List.lookup]) q.rangeAgg.cmp)
+      (cmpHaving_notBitSet _) _ (uw_eval o _ _ fn _ hd _ _ h0.rep (by simp [List.lookup]) q.rangeAgg.cmp)
     simpa using this
   | some g =>
     simp only [planByWithout, Bool.false_eq_true, if_false]
@@ -665,7 +669,7 @@ theorem uwPhase_ok (o : Oracles) (c : MCtx) (hn : c.namesOk) (d : LokiDb) (q : M
           refine ⟨⟨by decide, by decide⟩, ?_⟩
           apply Ne.symm; str_ne)
       (uwBody fn q.rangeAgg.durNs (cmpHaving q.rangeAgg.cmp))
-      (cmpHaving_notBitSet _) _ (uw_eval o _ _ fn _ hms hd _ _ h1.rep (by simp [List.lookup]) q.rangeAgg.cmp)
+      (cmpHaving_notBitSet _) _ (uw_eval o _ _ fn _ hd _ _ h1.rep (by simp [List.lookup]) q.rangeAgg.cmp)
     simpa using this
 
 /-! ### every query shape over an unwrapped range aggregation -/
@@ -933,13 +937,13 @@ theorem rangePoints_sorted (o : Oracles) (c : Ctx) (d : LokiDb) (r : RangeAgg) (
     timestamp order* — the plan orders `main` by timestamp before it joins the labels and groups. -/
 theorem planMetric_unwrap (o : Oracles) (c : MCtx) (hn : c.namesOk) (d : LokiDb) (q : MetricQuery) (fn : UnwrapFn)
     (label : String) (hk : q.rangeAgg.kind = .unwrap fn label) (hok : aggOk q)
-    (hm : q.rangeAgg.sel.matchers.length ≤ 63) (hms : 1000000 ∣ q.rangeAgg.durNs) (hd : 0 < q.rangeAgg.durNs) :
+    (hm : q.rangeAgg.sel.matchers.length ≤ 63) (hd : 0 < q.rangeAgg.durNs) :
     (evalSelA o (d.toDbM c) (planMetric c q)).map normRow = evalMetric o c (sortedDb c.toCtx d) q := by
   have hu : q.rangeAgg.isUnwrap = true := by unfold RangeAgg.isUnwrap; rw [hk]
   have hs : takesShortcut q = false := by simp only [takesShortcut, hk]
   have hrs := rangeState_unwrap c q fn label hk
   rw [planMetric_phases, hs]
-  have hp := uwPhase_ok o c hn d q fn label hk hm hms hd
+  have hp := uwPhase_ok o c hn d q fn label hk hm hd
   rw [planPhases_of_unwrap o c d q hu hok _ hp (by rw [hrs])
     (by
       apply cmpStage_labels
@@ -969,11 +973,11 @@ theorem planMetric_unwrap (o : Oracles) (c : MCtx) (hn : c.namesOk) (d : LokiDb)
 
 theorem supportedU_spec (q : MetricQuery) (h : supportedU q = true) :
     (∃ fn label, q.rangeAgg.kind = .unwrap fn label) ∧ aggOk q ∧
-      1000000 ∣ q.rangeAgg.durNs ∧ 0 < q.rangeAgg.durNs ∧ q.rangeAgg.sel.matchers.length ≤ 63 := by
+      0 < q.rangeAgg.durNs ∧ q.rangeAgg.sel.matchers.length ≤ 63 := by
   unfold supportedU at h
   simp only [Bool.and_eq_true, decide_eq_true_eq] at h
-  obtain ⟨⟨⟨h1, h3⟩, h4⟩, h5⟩ := h
-  refine ⟨?_, trivial, Nat.dvd_of_mod_eq_zero h3, h4, h5⟩
+  obtain ⟨⟨h1, h4⟩, h5⟩ := h
+  refine ⟨?_, trivial, h4, h5⟩
   · cases hk : q.rangeAgg.kind with
     | lra fn => rw [hk] at h1; cases h1
     | unwrap fn l =>
@@ -982,8 +986,8 @@ theorem supportedU_spec (q : MetricQuery) (h : supportedU q = true) :
 theorem planMetric_unwrap_supported (o : Oracles) (c : MCtx) (hn : c.namesOk) (d : LokiDb) (q : MetricQuery)
     (hsup : supportedU q = true) :
     (evalSelA o (d.toDbM c) (planMetric c q)).map normRow = evalMetric o c (sortedDb c.toCtx d) q := by
-  obtain ⟨⟨fn, label, hk⟩, hok, hms, hd, hm⟩ := supportedU_spec q hsup
-  exact planMetric_unwrap o c hn d q fn label hk hok hm hms hd
+  obtain ⟨⟨fn, label, hk⟩, hok, hd, hm⟩ := supportedU_spec q hsup
+  exact planMetric_unwrap o c hn d q fn label hk hok hm hd
 
 theorem sortedDb_of_sorted (c : Ctx) (d : LokiDb) (h : sortBy (tsLe c) d.samples = d.samples) : sortedDb c d = d := by
   cases d
